@@ -344,6 +344,9 @@ Proof.
   - cbn. split; [assumption | apply p2e_ext_refl].
   - cbn. split; [assumption | apply p2e_ext_refl].
   - cbn [fst nst]. rewrite (ns_restart_id _ Hinv). split; [assumption | apply p2e_ext_refl].
+  - cbn. split; [assumption | apply p2e_ext_refl].
+  - cbn. split; [assumption | apply p2e_ext_refl].
+  - cbn. split; [assumption | apply p2e_ext_refl].
 Qed.
 
 Lemma ns_run_inv a ops : forall w,
@@ -452,6 +455,9 @@ Proof.
     destruct (nth_error fetched h) as [f|] eqn:En; cbn [option_map]; [|reflexivity].
     unfold all_ctx in Hall. rewrite Forall_forall in Hall. destruct (Hall f (nth_error_In _ _ En)) as [m ->].
     cbn [read_handle]. apply list_eqb_refl. intros [x y]. cbn. now rewrite !str_eqb_refl.
+  - injection Es as <- <-. cbn [snapshot_ok]. rewrite Hos. now apply IH.
+  - injection Es as <- <-. cbn [snapshot_ok]. rewrite Hos. now apply IH.
+  - injection Es as <- <-. cbn [snapshot_ok]. rewrite Hos. now apply IH.
   - injection Es as <- <-. cbn [snapshot_ok]. rewrite Hos. now apply IH.
 Qed.
 
